@@ -65,6 +65,32 @@ Theorem copy_spec : forall st dt ps c sv dv cps r,
 Proof. exact copy_spec_lemma. Qed.
 Print Assumptions copy_spec.
 
+(* copy_spec read at one top-level field: an exported destination field whose name is not
+   ignored and has no converter, matched by the exported source field of the same name
+   and the same leaf type t (basic kind, slice, map, chan, array, time.Time), holds the
+   source's value after a successful CopyTo whenever that value is non-zero or the
+   destination field held the zero value (e.g. a fresh destination); an ignored field
+   keeps its old value. *)
+Theorem copy_leaf_value : forall sn sfs dname dfs ps c svs dvs cps r di si name t y x,
+  let st := Struct sn sfs in
+  let dt := Struct dname dfs in
+  new_reflect_copier st dt ps = COk c ->
+  Forall opt_ok ps -> Forall opt_ok cps ->
+  has_type st (VStruct svs) = true -> has_type dt (VStruct dvs) = true ->
+  reflect_copy_to c st dt (Some (VStruct svs)) (Some (VStruct dvs)) cps = (r, SOk) ->
+  nth_opt dfs di = Some (name, true, t) ->
+  assoc_find (field_map sfs 0 []) name = Some si ->
+  nth_opt sfs si = Some (name, true, t) ->
+  nth_opt svs si = Some y -> nth_opt dvs di = Some x ->
+  (is_shadow_kind (kind_of t) || is_atomic_type t) = true ->
+  find_conv (effective_options c cps) name = None ->
+  exists dvs', r = Some (VStruct dvs') /\
+    (in_ignore (effective_options c cps) name = true -> nth_opt dvs' di = Some x) /\
+    (in_ignore (effective_options c cps) name = false ->
+     (is_zero y = false \/ x = zero_value t) -> nth_opt dvs' di = Some y).
+Proof. exact copy_leaf_value_lemma. Qed.
+Print Assumptions copy_leaf_value.
+
 (* a nil source pointer: success, destination untouched *)
 Theorem copy_nil_src : forall st dt ps c dv cps,
   new_reflect_copier st dt ps = COk c ->
